@@ -1,18 +1,31 @@
-"""Translator (C12): the Runge-Kutta tableau, step-control constants and time bookkeeping statements of
-`Phreeqc::rk_kinetics` / `Phreeqc::run_reactions` (src/phreeqcpp/kinetics.cpp) as exact rationals
--> lean/PhreeqcVerif/Gen/RKTableau.lean.
+"""Translator (C12): the Runge-Kutta tableau, step-control constants and time bookkeeping of `Phreeqc::rk_kinetics` /
+`Phreeqc::run_reactions` (src/phreeqcpp/kinetics.cpp) and the last-good-state hook of `CVStep` (src/phreeqcpp/cvode.cpp) as
+exact rationals -> lean/PhreeqcVerif/Gen/RKTableau.lean.
 
-What is read from the CURRENT source (nothing is taken from memory of the Cash-Karp tableau):
-  * the literal initialisers `LDBLE b31 = 3. / 40., ...` and `LDBLE dc1 = c1 - 2825. / 27648., ...` (decimal literals
-    become exact fractions, identifiers are resolved in order of definition);
-  * every `Set_moles(<linear combination of rk_moles[..]>)` in source order: stage combinations for k2..k6, the early-exit
-    weights of -runge_kutta 1/2/3, the 5th-order weights; the error expression `l_error = fabs(...)`;
-  * the nodes from `rate_sim_time = rate_sim_time_start + h_sum + <c> * h;`
-  * the step-control constants (safety, moles_max, exponents, growth threshold/factor, MASS_BALANCE reduction, 1e-30 floor)
-    and the presence of the loop statements the model mirrors;
-  * the assignments to sum_t / tout1 / cvode_last_good_time / t inside the CVODE restart loop of run_reactions as a
-    straight-line linear program, and the time argument of the two CVode calls.
-Fails closed (RuntimeError -> protocol P) when a shape is not recognised."""
+The facts are read from the STRUCTURE of the code, not from its spelling.  Before anything is matched the text of a function is
+normalised:
+  * comments, preprocessor lines and casts are removed; file-level `static const T NAME = <number>` / `#define NAME <number>` /
+    enumerators are replaced by their literal value;
+  * a statement-level call of a private helper defined in the same file is replaced by the helper's body with the arguments
+    substituted for the parameters (one level; the engine functions the model treats as parameters are never inlined);
+  * reference/pointer aliases of the current kinetic component (`cxxKineticsComp *x = &(kinetics_ptr->Get_kinetics_comps()[j])`)
+    and the locals of the functions are alpha-renamed to canonical names; each local is recognised by its ROLE (the variable
+    tested in `while (. < kin_time)` is h_sum, the one added to it is h, ...), not by its name;
+  * the body is parsed into a statement tree (blocks, if/else, loops, labels, simple statements) whose texts are canonical
+    (no insignificant white space, braces normalised); guards whose body only reports/returns on a NULL test are dropped.
+What is then read:
+  * every local `LDBLE x = <constant expression>` (exact rationals; `dc_i = c_i - literal` keeps both operands);
+  * every `Set_moles(<linear combination of rk_moles[..]>)` in source order (stage combinations, early-exit weights of
+    -runge_kutta 1/2/3, 5th-order weights), the error expression, the nodes `rate_sim_time = rate_sim_time_start + h_sum + c*h`;
+  * the step control as facts about blocks: a block must CONTAIN given statements, only the orders that data flow requires are
+    demanded (`h_old = h` before `h` is changed, `h_sum += h` before the test `h_sum < kin_time`, ...), and no other statement of
+    the block may write a tracked variable; initial values are "the last write before the loop on the straight-line path";
+  * the CVODE restart loop: m_iter and sum_t are 0 on entry (last write before the loop, nothing in between writes them), tout is
+    kin_time at the first CVode call, the assignments executed before the re-started call as a straight-line linear program, the
+    hand-off of cvode_last_good_y, the `++m_iter >= bad_step_max` test; CVStep: which vector is tested and stored at the top of
+    every attempt, before CVPredict.
+Only a change of a tableau coefficient, control constant, error norm, restart bookkeeping or time accounting changes the generated
+tables.  Fails closed (Shape -> protocol P) when a fact cannot be established."""
 import re
 from fractions import Fraction
 from pathlib import Path
@@ -26,32 +39,202 @@ class Shape(RuntimeError):
     pass
 
 
+# ===============================================================================================================
+# text level
+# ===============================================================================================================
 def strip_comments(src):
     src = re.sub(r"/\*.*?\*/", lambda m: "\n" * m.group(0).count("\n"), src, flags=re.S)
     src = re.sub(r"//[^\n]*", "", src)
     return src
 
 
-def function_body(src, name):
-    m = re.search(r"^" + re.escape(name) + r"\s*\(", src, re.M)
-    if not m:
-        raise Shape(f"gen_rk: function {name} not found")
-    i = src.index("{", m.end())
-    depth, j = 1, i + 1
-    while depth:
-        if src[j] == "{":
-            depth += 1
-        elif src[j] == "}":
-            depth -= 1
-        j += 1
-    return src[i + 1:j - 1], src[:i].count("\n") + 1
+def strip_preprocessor(src):
+    return re.sub(r"(?m)^[ \t]*#(?:[^\n\\]|\\.|\\\n)*$", "", src)
+
+
+CAST = re.compile(r"\(\s*(?:LDBLE|size_t|double|int|long|realtype|void\s*\*|long\s+int)\s*\)")
+WORD_TOK = re.compile(r'"(?:[^"\\]|\\.)*"|\'(?:[^\'\\]|\\.)*\'|\d+\.?\d*(?:[eE][-+]?\d+)?|\.\d+(?:[eE][-+]?\d+)?|[A-Za-z_]\w*|->|::|\+\+|--|[-+*/]=|[<>=!]=|&&|\|\||\S')
+
+
+def canon(s):
+    """canonical spelling: casts removed, tokens joined without white space except one blank between two word tokens"""
+    s = CAST.sub("", s)
+    out, prev = [], ""
+    for t in WORD_TOK.findall(s):
+        if prev and re.match(r"\w", prev[-1]) and re.match(r"\w", t[0]):
+            out.append(" ")
+        out.append(t)
+        prev = t
+    return norm_parens("".join(out))
+
+
+def norm_parens(s):
+    """remove parentheses that change nothing: ((x)) -> (x), (name) / (1.5) -> name / 1.5 (not after a name: calls), and the
+    pair around a whole right-hand side `a = (x)`"""
+    while True:
+        stack, match = [], {}
+        quote = None
+        for i, ch in enumerate(s):
+            if quote:
+                if ch == quote and s[i - 1] != "\\":
+                    quote = None
+                continue
+            if ch in "\"'":
+                quote = ch
+            elif ch == "(":
+                stack.append(i)
+            elif ch == ")" and stack:
+                match[stack.pop()] = i
+        drop = None
+        for i in sorted(match):
+            j = match[i]
+            if i + 1 < len(s) and s[i + 1] == "(" and match.get(i + 1) == j - 1:
+                drop = (i, j)
+                break
+            inner = s[i + 1:j]
+            before = s[i - 1] if i else ""
+            if re.fullmatch(r"[A-Za-z_]\w*|\d+\.?\d*(?:[eE][-+]?\d+)?", inner) and not re.match(r"[\w\])]", before or " "):
+                drop = (i, j)
+                break
+            if j == len(s) - 1 and i >= 2 and s[i - 1] == "=" and s[i - 2] not in "=!<>" and re.fullmatch(r"[\w.\->\[\]]+(?:[-+*/])?", s[:i - 1]):
+                drop = (i, j)
+                break
+        if drop is None:
+            return s
+        i, j = drop
+        s = s[:i] + s[i + 1:j] + s[j + 1:]
+
+
+def function_text(src, name):
+    """(parameter text, body text without the outer braces) of the definition of `name`"""
+    for m in re.finditer(r"(?m)^[ \t]*(?:[\w:\*&<> ]*?\b)?" + re.escape(name) + r"\s*\(", src):
+        i = m.end()
+        depth = 1
+        while depth:
+            depth += src[i] == "("
+            depth -= src[i] == ")"
+            i += 1
+        params = src[m.end():i - 1]
+        k = i
+        while k < len(src) and src[k].isspace():
+            k += 1
+        if k < len(src) and src[k] == "{":
+            depth, j = 1, k + 1
+            while depth:
+                depth += src[j] == "{"
+                depth -= src[j] == "}"
+                j += 1
+            return params, src[k + 1:j - 1]
+    raise Shape(f"gen_rk: definition of {name} not found")
+
+
+def param_names(params):
+    out = []
+    for p in split_top(params):
+        m = re.search(r"(\w+)\s*(?:\[\s*\])?\s*$", p.strip())
+        out.append(m.group(1) if m else "")
+    return out
+
+
+def rename(text, table):
+    """simultaneous word-wise renaming of identifiers (not after `.` or `->`)"""
+    table = {k: v for k, v in table.items() if k != v}
+    if not table:
+        return text
+    rx = re.compile(r"(?<![\w.>])(" + "|".join(re.escape(k) for k in sorted(table, key=len, reverse=True)) + r")\b")
+    return rx.sub(lambda m: table[m.group(1)], text)
+
+
+def file_constants(raw):
+    """NAME -> Fraction for `static const T NAME = expr;`, `#define NAME expr`, `enum { A = 1, B }` with numeric values"""
+    consts = {}
+    nocom = strip_comments(raw)
+    for m in re.finditer(r"(?m)^[ \t]*#[ \t]*define[ \t]+(\w+)[ \t]+([^\n]+?)[ \t]*$", nocom):
+        try:
+            v = parse_expr(m.group(2), consts)
+            if v.is_const():
+                consts[m.group(1)] = v.c
+        except Shape:
+            pass
+    txt = strip_preprocessor(nocom)
+    for m in re.finditer(r"\b(?:static\s+)?const\s+(?:static\s+)?[\w ]+?\b(\w+)\s*=\s*([^;{}]+);", txt):
+        try:
+            v = parse_expr(m.group(2), consts)
+            if v.is_const():
+                consts[m.group(1)] = v.c
+        except Shape:
+            pass
+    for m in re.finditer(r"\benum\b[^{;]*\{([^}]*)\}", txt):
+        nxt = Fraction(0)
+        for part in m.group(1).split(","):
+            part = part.strip()
+            if not part:
+                continue
+            nm, _, rhs = part.partition("=")
+            try:
+                if rhs.strip():
+                    nxt = parse_expr(rhs, consts).c
+                consts[nm.strip()] = nxt
+                nxt += 1
+            except Shape:
+                break
+    return consts
+
+
+def lit(v):
+    v = Fraction(v)
+    return f"({v.numerator}./{v.denominator}.)" if v.denominator != 1 else f"{v.numerator}."
+
+
+def subst_constants(text, consts, local_names=()):
+    table = {k: lit(v) for k, v in consts.items() if k not in local_names}
+    return rename(text, table)
+
+
+# engine functions the model treats as parameters (or that are irrelevant): never inlined
+NO_INLINE = {"calc_kinetic_reaction", "calc_final_kinetic_reaction", "set_and_run_wrapper", "set_and_run", "saver", "set_transport",
+             "set_advection", "set_reaction", "status", "error_msg", "warning_msg", "limit_rates", "store_get_equi_reactants",
+             "free_cvode", "malloc_error", "rk_kinetics", "run_reactions", "output_msg", "log_msg", "sformatf", "step", "f", "Jac"}
+
+
+def inline_helpers(body, src, depth=1):
+    """replace `helper(args);` statements by the body of a helper defined in the same file (one level)"""
+    if depth == 0:
+        return body
+    out, pos = [], 0
+    for m in re.finditer(r"(?<=[;{}:])(\s*)(\w+)\s*\(", body):
+        name = m.group(2)
+        if m.start() < pos or name in NO_INLINE or name in ("if", "for", "while", "switch", "return", "sizeof", "delete", "fabs", "pow"):
+            continue
+        try:
+            params, hbody = function_text(src, name)
+        except Shape:
+            continue
+        if not re.search(r"(?m)^[ \t]*(?:[\w\*&<> ]+\s)?(?:Phreeqc\s*::\s*)?\n?[ \t]*" + re.escape(name) + r"\s*\(", src):
+            continue
+        args, end = balanced_arg(body, m.end())
+        rest = body[end:]
+        ms = re.match(r"\s*;", rest)
+        if not ms:
+            continue
+        hb = re.sub(r"\breturn\s*;\s*$", "", hbody.rstrip())
+        if re.search(r"\breturn\b|\bgoto\b", hb):
+            continue            # not a straight helper: leave the call (the facts below then fail closed if it mattered)
+        pn = param_names(params)
+        av = [a.strip() for a in split_top(args)] if args.strip() else []
+        if len(pn) != len(av):
+            continue
+        table = {p: (a if re.fullmatch(r"[\w.\->\[\]]+", a) else "(" + a + ")") for p, a in zip(pn, av) if p}
+        out.append(body[pos:m.start()] + m.group(1) + "{" + rename(hb, table) + "}")
+        pos = end + ms.end()
+    out.append(body[pos:])
+    return "".join(out)
 
 
 # ---------------------------------------------------------------------------------------------------------------
 # a tiny exact evaluator for C arithmetic: numbers, identifiers, + - * /, unary minus, parentheses, casts removed
 # ---------------------------------------------------------------------------------------------------------------
 TOK = re.compile(r"\s*(?:(\d+\.?\d*(?:[eE][-+]?\d+)?|\.\d+(?:[eE][-+]?\d+)?)|([A-Za-z_]\w*(?:\s*\[[^\]]*\])?)|(.))")
-CAST = re.compile(r"\(\s*(?:LDBLE|size_t|double|int|long)\s*\)")
 
 
 def num(text):
@@ -192,104 +375,522 @@ def balanced_arg(body, start):
     return body[start:i - 1], i
 
 
-# ---------------------------------------------------------------------------------------------------------------
-def extract_rk(body, line0):
-    info = {}
-    # 1. coefficient initialisers -------------------------------------------------------------------------------
-    env = {}
-    split = {}
-    decls = [m for m in re.finditer(r"\bLDBLE\s+([^;]*?=[^;]*);", body) if re.search(r"\b(b\d\d|c\d|dc\d)\s*=", m.group(1))]
-    if len(decls) != 2:
-        raise Shape(f"gen_rk: expected 2 LDBLE initialiser statements with tableau coefficients, found {len(decls)}")
-    for d in decls:
-        for part in split_top(d.group(1)):
-            nm, _, rhs = part.partition("=")
+
+# ===============================================================================================================
+# statement tree
+# ===============================================================================================================
+def scan(s, i, stop):
+    depth, n = 0, len(s)
+    while i < n:
+        c = s[i]
+        if c in "\"'":
+            j = i + 1
+            while j < n and s[j] != c:
+                j += 2 if s[j] == "\\" else 1
+            i = j + 1
+            continue
+        if depth == 0 and c in stop:
+            return i
+        if c in "([{":
+            depth += 1
+        elif c in ")]}":
+            depth -= 1
+        i += 1
+    raise Shape("gen_rk: unbalanced text while parsing statements")
+
+
+def skip_ws(s, i):
+    while i < len(s) and s[i].isspace():
+        i += 1
+    return i
+
+
+def parens(s, i):
+    i = skip_ws(s, i)
+    if i >= len(s) or s[i] != "(":
+        raise Shape("gen_rk: '(' expected while parsing statements")
+    j = scan(s, i + 1, ")")
+    return s[i + 1:j], j + 1
+
+
+KW = re.compile(r"(if|for|while|switch|do|else|case|default)\b")
+LABEL = re.compile(r"([A-Za-z_]\w*)\s*:(?!:)")
+
+
+def parse_stmt(s, i):
+    """("block",[n]) ("if",cond,then,else|None) ("loop",kw,header,body) ("label",name) ("simple",text); canonical texts"""
+    i = skip_ws(s, i)
+    if s[i] == "{":
+        out, i = [], i + 1
+        while True:
+            i = skip_ws(s, i)
+            if i >= len(s):
+                raise Shape("gen_rk: unbalanced braces")
+            if s[i] == "}":
+                return ("block", out), i + 1
+            n, i = parse_stmt(s, i)
+            if n is not None:
+                out.append(n)
+    m = KW.match(s, i)
+    kw = m.group(1) if m else None
+    if kw == "if":
+        cond, i = parens(s, m.end())
+        then, i = parse_stmt(s, i)
+        j = skip_ws(s, i)
+        els = None
+        if re.match(r"else\b", s[j:j + 5]):
+            els, i = parse_stmt(s, j + 4)
+        return ("if", canon(cond), then, els), i
+    if kw in ("for", "while", "switch"):
+        hdr, i = parens(s, m.end())
+        body, i = parse_stmt(s, i)
+        return ("loop", kw, canon(hdr), body), i
+    if kw == "do":
+        body, i = parse_stmt(s, m.end())
+        j = skip_ws(s, i)
+        cond, i = parens(s, j + 5)
+        return ("loop", "do", canon(cond), body), scan(s, i, ";") + 1
+    if kw in ("case", "default"):
+        j = scan(s, m.end(), ":")
+        return ("label", canon(s[i:j])), j + 1
+    ml = LABEL.match(s, i)
+    if ml and ml.group(1) not in ("public", "private", "protected"):
+        return ("label", ml.group(1)), ml.end()
+    if s[i] == ";":
+        return None, i + 1
+    j = scan(s, i, ";")
+    return ("simple", canon(s[i:j])), j + 1
+
+
+def parse_body(text):
+    node, _ = parse_stmt("{" + text + "}", 0)
+    return node
+
+
+def stmts(node):
+    """direct statements of a block; nested plain blocks are flattened; a single statement counts as a one-element block"""
+    if node is None:
+        return []
+    if node[0] != "block":
+        return [node]
+    out = []
+    for n in node[1]:
+        out += stmts(n) if n[0] == "block" else [n]
+    return out
+
+
+def walk(node):
+    if node is None:
+        return
+    yield node
+    k = node[0]
+    if k == "block":
+        for n in node[1]:
+            yield from walk(n)
+    elif k == "if":
+        yield from walk(node[2])
+        yield from walk(node[3])
+    elif k == "loop":
+        yield from walk(node[3])
+
+
+def ser(node):
+    """canonical serialisation with normalised braces"""
+    if node is None:
+        return ""
+    k = node[0]
+    if k == "block":
+        return "".join(ser(n) for n in stmts(node))
+    if k == "if":
+        return "if(" + node[1] + "){" + ser(node[2]) + "}" + ("else{" + ser(node[3]) + "}" if node[3] is not None else "")
+    if k == "loop":
+        return node[1] + "(" + node[2] + "){" + ser(node[3]) + "}"
+    if k == "label":
+        return node[1] + ":"
+    return node[1] + ";"
+
+
+NULL_TEST = re.compile(r"(?:[\w.\->]+==NULL|NULL==[\w.\->]+|![\w.\->]+)")
+GUARD_STMT = re.compile(r"(?:return\b.*|error_msg\(.*|warning_msg\(.*|malloc_error\(\)|[\w.\->]*(?:cvode_error|return_value)=\w+)")
+
+
+def drop_null_guards(node):
+    """remove `if (p == NULL) { report; return; }` (no else, body only reports / sets an error flag / returns)"""
+    if node is None:
+        return None
+    k = node[0]
+    if k == "block":
+        out = []
+        for n in node[1]:
+            if n[0] == "if" and n[3] is None and NULL_TEST.fullmatch(n[1]):
+                body = stmts(n[2])
+                if body and all(b[0] == "simple" and GUARD_STMT.fullmatch(b[1]) for b in body) and any(b[1].startswith("return") for b in body):
+                    continue
+            out.append(drop_null_guards(n))
+        return ("block", out)
+    if k == "if":
+        return ("if", node[1], drop_null_guards(node[2]), drop_null_guards(node[3]))
+    if k == "loop":
+        return ("loop", node[1], node[2], drop_null_guards(node[3]))
+    return node
+
+
+def writes_var(text, var):
+    v = re.escape(var)
+    return bool(re.search(r"(?<![\w.>])" + v + r"(?![\w(])\s*(?:=(?!=)|\+=|-=|\*=|/=|\+\+|--)", text) or
+                re.search(r"(?:\+\+|--)" + v + r"\b", text) or re.search(r"&" + v + r"\b", text))
+
+
+def node_writes(node, var):
+    return writes_var(ser(node), var)
+
+
+def assignments(text):
+    """[(lhs, rhs)] of a simple statement `a = b = expr`, `a += e` (-> a = a + (e)), `a++`; [] when it is not an assignment.
+    A leading declaration type is ignored."""
+    t = text
+    m = re.fullmatch(r"(?:[\w:\*&<> ]+?[ \*&])?([A-Za-z_][\w.\->\[\]]*)(\+\+|--)", t)
+    if m:
+        return [(m.group(1), f"{m.group(1)}{'+' if m.group(2) == '++' else '-'}1")]
+    m = re.fullmatch(r"(\+\+|--)([A-Za-z_][\w.\->\[\]]*)", t)
+    if m:
+        return [(m.group(2), f"{m.group(2)}{'+' if m.group(1) == '++' else '-'}1")]
+    m = re.fullmatch(r"(?:[\w:<> ]+?[ \*&]+)??([A-Za-z_][\w.\->\[\]]*)(=|\+=|-=|\*=|/=)(?!=)(.*)", t)
+    if not m:
+        return []
+    lhs, op, rhs = m.group(1), m.group(2), m.group(3)
+    if op != "=":
+        return [(lhs, f"{lhs}{op[0]}({rhs})")]
+    inner = assignments(rhs) if re.match(r"[A-Za-z_][\w.\->\[\]]*=(?!=)", rhs) else []
+    if inner:
+        return [(lhs, inner[-1][1])] + inner
+    return [(lhs, rhs)]
+
+
+def last_write(slist, idx, var, what):
+    """rhs of the last write of `var` in slist[:idx] (straight-line statements); the writer must be a simple assignment"""
+    for k in range(idx - 1, -1, -1):
+        n = slist[k]
+        if not node_writes(n, var):
+            continue
+        if n[0] == "simple":
+            for lhs, rhs in assignments(n[1]):
+                if lhs == var:
+                    return rhs, k
+        raise Shape(f"gen_rk: {what}: the last write of `{var}` before this point is not a plain assignment: {ser(n)[:80]}")
+    raise Shape(f"gen_rk: {what}: `{var}` is never assigned before this point")
+
+
+def const_of(text, what):
+    e = parse_expr(text, {})
+    if not e.is_const():
+        raise Shape(f"gen_rk: {what}: {text!r} is not a constant")
+    return e.c
+
+
+def find_parent(root, pred):
+    """(statement list, index) of the first node satisfying pred, searching the flattened statement lists"""
+    def rec(node):
+        if node is None:
+            return None
+        if node[0] == "block":
+            sl = stmts(node)
+            for k, n in enumerate(sl):
+                if pred(n):
+                    return sl, k
+            for n in sl:
+                r = rec(n)
+                if r:
+                    return r
+        elif node[0] == "if":
+            for ch in (node[2], node[3]):
+                if ch is not None:
+                    if ch[0] != "block" and pred(ch):
+                        return [ch], 0
+                    r = rec(ch)
+                    if r:
+                        return r
+        elif node[0] == "loop":
+            if node[3] is not None and node[3][0] != "block" and pred(node[3]):
+                return [node[3]], 0
+            return rec(node[3])
+        return None
+    r = rec(root)
+    return r
+
+
+def require_block(node, items, order, tracked, what):
+    """the block `node` contains each of `items` (regex on the serialised statement) exactly once among its direct statements,
+    index(a) < index(b) for (a, b) in order, and no OTHER direct statement writes a tracked variable.
+    Returns the match objects."""
+    sl = stmts(node)
+    sers = [ser(n) for n in sl]
+    found = {}
+    for key, rx in items.items():
+        hits = [(k, re.fullmatch(rx, s)) for k, s in enumerate(sers) if re.fullmatch(rx, s)]
+        if len(hits) != 1:
+            raise Shape(f"gen_rk: {what}: statement `{key}` found {len(hits)} times in the block")
+        found[key] = hits[0]
+    for a, b in order:
+        if not found[a][0] < found[b][0]:
+            raise Shape(f"gen_rk: {what}: `{a}` does not precede `{b}`")
+    used = {v[0] for v in found.values()}
+    for k, s in enumerate(sers):
+        if k in used:
+            continue
+        for v in tracked:
+            if writes_var(s, v):
+                raise Shape(f"gen_rk: {what}: an additional statement writes `{v}`: {s[:80]}")
+    return {k: v[1] for k, v in found.items()}
+
+
+
+# ===============================================================================================================
+# roles: alpha-renaming of locals to canonical names
+# ===============================================================================================================
+def one_name(names, what):
+    names = set(n for n in names if n)
+    if len(names) != 1:
+        raise Shape(f"gen_rk: cannot identify the variable that plays the role `{what}` (candidates {sorted(names)})")
+    return names.pop()
+
+
+def apply_role(body, cur, canonical):
+    if cur == canonical:
+        return body
+    if re.search(r"(?<![\w.>])" + re.escape(canonical) + r"\b", body):
+        raise Shape(f"gen_rk: cannot rename `{cur}` to the canonical name `{canonical}`: the name is used for something else")
+    return rename(body, {cur: canonical})
+
+
+def roles_rk(params, body):
+    pn = param_names(params)
+    if len(pn) != 5:
+        raise Shape(f"gen_rk: rk_kinetics has {len(pn)} parameters, expected 5")
+    for cur, cn in zip(pn, ["i", "kin_time", "use_mix", "nsaver", "step_fraction"]):
+        body = apply_role(body, cur, cn)
+
+    def role(cn, pattern, group=1, all_same=False):
+        nonlocal body
+        cb = canon(body)
+        ms = [m.group(group) if isinstance(group, int) else next((g for g in m.groups() if g), None) for m in re.finditer(pattern, cb)]
+        if not ms:
+            raise Shape(f"gen_rk: cannot identify the variable that plays the role `{cn}`")
+        body = apply_role(body, one_name(ms if all_same else ms[:1], cn), cn)
+    role("kinetics_ptr", r"(?<![\w.>])(\w+)=Utilities::Rxn_find\(Rxn_kinetics_map,i\);")
+    role("n_reactions", r"(?<![\w.>])(\w+)=kinetics_ptr->Get_kinetics_comps\(\)\.size\(\);")
+    role("h_sum", r"while\((\w+)<kin_time\)", all_same=True)
+    role("h", r"(?<![\w.>])h_sum\+=(\w+);", all_same=True)
+    role("h_old", r"\*=\(?h/(\w+)\)?;", all_same=True)
+    role("moles_reduction", r"MOLES_TOO_LARGE:if\((\w+)>")
+    role("safety", r"(?<![\w.>])h=(?:(\w+)\*h|h\*(\w+))/\(1\.?0*\+moles_reduction\)", group=None)
+    role("moles_max", r"if\(moles_reduction\*(\w+)<fabs\(", all_same=True)
+    role("l_error", r"if\((\w+)>(\w+)\)\{?\2=\1;", group=1)
+    role("error_max", r"if\(l_error>(\w+)\)\{?\1=l_error;")
+    role("step_bad", r"if\((\w+)>kinetics_ptr->Get_bad_step_max\(\)\)")
+    role("step_ok", r"if\((\w+)==0\)\{?h=h\*safety/error_max;")
+    role("k", r"(?<![\w.>])(\w+)=(?:\d+\*)?n_reactions;", all_same=True)
+    # loop indices over the kinetic components, aliases of the current component
+    cb = canon(body)
+    idx = set(re.findall(r"for\(size_t (\w+)=0;\1<kinetics_ptr->Get_kinetics_comps\(\)\.size\(\);\1\+\+\)", cb))
+    for x in idx:
+        if x != "j":
+            body = rename(body, {x: "j"})
+    cb = canon(body)
+    for x in set(re.findall(r"cxxKineticsComp\*&?(\w+)=&?\(?kinetics_ptr->Get_kinetics_comps\(\)\[j\]\)?;", cb)):
+        if x != "kinetics_comp_ptr":
+            body = rename(body, {x: "kinetics_comp_ptr"})
+    # flags recognised on the tree
+    tree = parse_body(body)
+    lb = [re.fullmatch(r"(\w+)==TRUE", n[1]) for n in walk(tree) if n[0] == "if" and re.search(r"\*=\(?h/h_old\)?;", ser(n[2])) and re.fullmatch(r"(\w+)==TRUE", n[1])]
+    body = apply_role(body, one_name([m.group(1) for m in lb][:1], "l_bad"), "l_bad")
+    er = [n for n in walk(tree) if n[0] == "if" and n[1] == "kinetics_ptr->Get_rk()==6"]
+    names = [re.fullmatch(r"(\w+)=FALSE;", ser(n[2])) for n in er]
+    body = apply_role(body, one_name([m.group(1) for m in names if m][:1], "equal_rate"), "equal_rate")
+    return body
+
+
+def roles_run_reactions(params, body):
+    pn = param_names(params)
+    if len(pn) != 4:
+        raise Shape(f"gen_rk: run_reactions has {len(pn)} parameters, expected 4")
+    for cur, cn in zip(pn, ["i", "kin_time", "use_mix", "step_fraction"]):
+        body = apply_role(body, cur, cn)
+
+    def role(cn, pattern, group=1):
+        nonlocal body
+        ms = [m.group(group) for m in re.finditer(pattern, canon(body))]
+        if not ms:
+            raise Shape(f"gen_rk: run_reactions: cannot identify the variable that plays the role `{cn}`")
+        body = apply_role(body, one_name(ms, cn), cn)
+    m = re.search(r"(?<![\w.>])(\w+)=Utilities::Rxn_find\(Rxn_kinetics_map,i\);", canon(body))
+    if not m:
+        raise Shape("gen_rk: run_reactions: cannot identify the variable that plays the role `kinetics_ptr`")
+    body = apply_role(body, m.group(1), "kinetics_ptr")
+    role("flag", r"RESTART:while\((\w+)!=SUCCESS\)")
+    call = r"(?<![\w.>])flag=CVode\(kinetics_cvode_mem,(\w+),kinetics_y,&(\w+),NORMAL\);"
+    calls = list(re.finditer(call, canon(body)))
+    if len(calls) != 2:
+        raise Shape(f"gen_rk: run_reactions: {len(calls)} CVode calls, expected the first call and the re-started call")
+    body = apply_role(body, calls[0].group(2), "t")
+    calls = list(re.finditer(call, canon(body)))
+    if calls[1].group(2) != "t":
+        raise Shape("gen_rk: run_reactions: the two CVode calls do not report the reached time in the same variable")
+    # the call that sits inside the restart loop hands over tout1, the other one tout
+    tree = parse_body(body)
+    loop = [n for n in walk(tree) if n[0] == "loop" and n[1] == "while" and n[2] == "flag!=SUCCESS"]
+    if len(loop) != 1:
+        raise Shape("gen_rk: run_reactions: restart loop `while (flag != SUCCESS)` not found")
+    inner = re.findall(call, ser(loop[0]))
+    if len(inner) != 1:
+        raise Shape("gen_rk: run_reactions: the restart loop does not contain exactly one CVode call")
+    outer = [c.group(1) for c in calls if c.group(1) != inner[0][0]]
+    if len(outer) != 1:
+        raise Shape("gen_rk: run_reactions: first and re-started CVode call use the same end-time variable")
+    # rename simultaneously (the names may be swapped)
+    body = rename(body, {inner[0][0]: "tout1", outer[0]: "tout"})
+    role("m_iter", r"if\(\+\+(\w+)>=?kinetics_ptr->Get_bad_step_max\(\)\)")
+    # the accumulator: the only other local assigned on the straight path of the loop body before the call
+    tree = parse_body(body)
+    loop = [n for n in walk(tree) if n[0] == "loop" and n[1] == "while" and n[2] == "flag!=SUCCESS"][0]
+    cands = set()
+    for n in stmts(loop[3]):
+        if n[0] == "simple" and "CVode(" in n[1] and n[1].startswith("flag="):
+            break
+        if n[0] == "simple":
+            for lhs, _ in assignments(n[1]):
+                if re.fullmatch(r"\w+", lhs) and lhs not in ("tout", "tout1", "t", "flag", "cvode_last_good_time", "m_iter", "kinetics_cvode_mem"):
+                    try:
+                        parse_expr(_, {}, symbols="*")          # arithmetic on times only (not strings, pointers, calls)
+                    except Shape:
+                        continue
+                    cands.add(lhs)
+    body = apply_role(body, one_name(cands, "sum_t"), "sum_t")
+    return body
+
+
+# ===============================================================================================================
+# rk_kinetics
+# ===============================================================================================================
+def stage_of(idx, kcur):
+    idx = canon(idx).replace("(", "").replace(")", "").replace(" ", "")
+    if idx == "j":
+        return 0
+    if idx in ("k+j", "j+k"):
+        if kcur is None:
+            raise Shape("gen_rk: rk_moles[k + j] used before k is set")
+        return kcur
+    m = re.fullmatch(r"(?:(\d+)\*)?n_reactions\+j|j\+(?:(\d+)\*)?n_reactions", idx)
+    if m:
+        return int(m.group(1) or m.group(2) or 1)
+    raise Shape(f"gen_rk: unrecognised rk_moles index {idx!r}")
+
+
+def local_constants(top):
+    """local declarations `LDBLE a = <constant>, b = a - <constant>` of the function: values and, for differences of an earlier
+    constant and a literal, both operands"""
+    env, split = {}, {}
+    for n in top:
+        if n[0] != "simple" or not re.match(r"(?:const )?(?:LDBLE|double|realtype) ", n[1]):
+            continue
+        decl = re.sub(r"^(?:const )?(?:LDBLE|double|realtype) ", "", n[1])
+        for part in split_top(decl):
+            nm, eq, rhs = part.partition("=")
             nm = nm.strip()
-            if not re.fullmatch(r"b\d\d|c\d|dc\d", nm):
-                raise Shape(f"gen_rk: unexpected initialiser {nm!r}")
-            v = parse_expr(rhs, env)
+            if not eq or not re.fullmatch(r"\w+", nm):
+                continue
+            try:
+                v = parse_expr(rhs, env)
+            except Shape:
+                continue
             if not v.is_const():
-                raise Shape(f"gen_rk: initialiser of {nm} is not constant")
-            # `dcN = cN - <literal quotient>`: keep both operands (the double value is the rounded difference of the two
-            # rounded operands, not the rounded exact difference)
-            ms = re.fullmatch(r"\s*(c\d)\s*-\s*([^-+]+?)\s*", rhs)
-            if nm.startswith("dc"):
-                if ms and ms.group(1) in env:
-                    split[nm] = (env[ms.group(1)], parse_expr(ms.group(2), env).c)
-                else:
-                    split[nm] = (v.c, Fraction(0))
-            if nm in env:
-                raise Shape(f"gen_rk: {nm} initialised twice")
+                continue
+            ms = re.fullmatch(r"(\w+)-([^-+]+)", rhs.strip())
+            if ms and ms.group(1) in env:
+                split[nm] = (env[ms.group(1)], parse_expr(ms.group(2), env).c)
+            else:
+                split[nm] = (v.c, Fraction(0))
             env[nm] = v.c
-    info["coef_line"] = line0 + body[:decls[0].start()].count("\n")
-    expected = {"b31", "b32", "b51", "b53", "b54", "b61", "b62", "b63", "b64", "b65", "c1", "c3", "c4", "c6",
-                "dc1", "dc3", "dc4", "dc5", "dc6"}
-    if set(env) != expected:
-        raise Shape(f"gen_rk: coefficient names differ: {sorted(set(env) ^ expected)}")
-    # any later assignment to a coefficient would invalidate the extraction
-    rest = body[decls[1].end():]
-    for nm in env:
-        if re.search(r"\b" + nm + r"\s*(?:[-+*/]?=)(?!=)", rest):
-            raise Shape(f"gen_rk: coefficient {nm} is assigned after its initialiser")
+    return env, split
 
-    # 2. walk through the body: k = N*n_reactions, stores into rk_moles, Set_moles(...) and l_error -------------
-    def stage_of(idx, kcur):
-        idx = re.sub(r"\s+", "", CAST.sub("", idx))
-        idx = idx.replace("(", "").replace(")", "")
-        if idx == "j":
-            return 0
-        if idx in ("k+j", "j+k"):
-            if kcur is None:
-                raise Shape("gen_rk: rk_moles[k + j] used before k is set")
-            return kcur
-        m = re.fullmatch(r"(?:(\d+)\*)?n_reactions\+j", idx)
-        if m:
-            return int(m.group(1) or 1)
-        raise Shape(f"gen_rk: unrecognised rk_moles index {idx!r}")
 
+def additive_terms(text):
+    """top-level terms of a sum with their signs"""
+    terms, depth, cur, sign = [], 0, "", 1
+    for ch in text:
+        if ch in "+-" and depth == 0 and cur.strip() and cur.strip()[-1] not in "*/(eE":
+            terms.append((sign, cur))
+            cur, sign = "", (1 if ch == "+" else -1)
+            continue
+        depth += ch in "(["
+        depth -= ch in ")]"
+        cur += ch
+    if cur.strip():
+        terms.append((sign, cur))
+    return terms
+
+
+def extract_events(tree, env, split):
+    text = ser(tree)
     events = []
-    pat = re.compile(r"\bk\s*=\s*(?:(\d+)\s*\*\s*)?n_reactions\s*;|rk_moles\s*\[([^\]]*)\]\s*=\s*kinetics_comp_ptr->Get_moles\(\)\s*;"
-                     r"|kinetics_comp_ptr->Set_moles\s*\(|l_error\s*=\s*fabs\s*\(|rate_sim_time\s*=\s*rate_sim_time_start\s*\+\s*h_sum([^;]*);"
-                     r"|rk_moles\s*\[\s*j\s*\]\s*\*=\s*\(\s*h\s*/\s*h_old\s*\)\s*;")
+    pat = re.compile(r"(?<![\w.>])k=(?:(\d+)\*)?n_reactions;|rk_moles\[([^\]]*)\]=kinetics_comp_ptr->Get_moles\(\);"
+                     r"|kinetics_comp_ptr->Set_moles\(|(?<![\w.>])l_error=fabs\(|(?<![\w.>])rate_sim_time=rate_sim_time_start\+h_sum([^;]*);"
+                     r"|rk_moles\[j\]\*=\(?h/h_old\)?;")
     kcur = None
-    for m in pat.finditer(body):
+    err_split = None
+    for m in pat.finditer(text):
         txt = m.group(0)
-        ln = line0 + body[:m.start()].count("\n")
-        if re.match(r"k\s*=", txt):
+        if re.match(r"k=", txt):
             kcur = int(m.group(1) or 1)
         elif txt.startswith("rk_moles") and "*=" in txt:
-            events.append(("rescale", ln))
+            events.append(("rescale",))
         elif txt.startswith("rk_moles"):
-            events.append(("store", stage_of(m.group(2), kcur), ln))
+            events.append(("store", stage_of(m.group(2), kcur)))
         elif txt.startswith("rate_sim_time"):
             tail = m.group(3).strip()
             if tail == "":
                 node = Fraction(0)
             else:
-                e = parse_expr("0 " + tail, {}, symbols=("h",))
+                e = parse_expr("0 " + tail, env, symbols=("h",))
                 if e.c != 0 or set(e.t) - {"h"}:
                     raise Shape(f"gen_rk: unrecognised node expression {tail!r}")
                 node = e.t.get("h", Fraction(0))
-            events.append(("node", node, ln))
+            events.append(("node", node))
         else:
-            arg, _ = balanced_arg(body, m.end())
+            arg, _ = balanced_arg(text, m.end())
             if "rk_moles" not in arg and "Get_moles()" not in arg:
                 continue            # Set_moles(0.), Set_moles(m_temp[i]) ...
-            # make rk_moles[...] symbolic per stage, Get_moles() = "cur"
             syms = {}
 
             def repl(mm):
                 s = f"K{stage_of(mm.group(1), kcur)}"
                 syms[s] = 1
                 return s
-            a2 = re.sub(r"rk_moles\s*\[([^\]]*)\]", repl, arg)
+            a2 = re.sub(r"rk_moles\[([^\]]*)\]", repl, arg)
             a2 = a2.replace("kinetics_comp_ptr->Get_moles()", "CUR")
             e = parse_expr(a2, env, symbols=tuple(syms) + ("CUR",))
             if e.c != 0:
                 raise Shape(f"gen_rk: constant term in stage expression {arg.strip()!r}")
-            events.append(("err" if txt.startswith("l_error") else "set", {k: v for k, v in e.t.items() if v != 0}, ln))
-    info['split'] = split
-    return env, events, info
+            if txt.startswith("l_error"):
+                # operands of every weight: `w * K` with w a local constant that was initialised as `c - literal`
+                err_split = {}
+                for sign, term in additive_terms(a2):
+                    mk = re.search(r"K(\d)", term)
+                    if not mk:
+                        raise Shape(f"gen_rk: term without a stage value in the error expression: {term!r}")
+                    w = re.sub(r"\*?K\d\*?", "", term, count=1).strip()
+                    st = int(mk.group(1))
+                    if re.fullmatch(r"\w+", w) and w in split:
+                        a, b = split[w]
+                    else:
+                        a, b = (parse_expr(w or "1", env).c, Fraction(0))
+                    if st in err_split:
+                        raise Shape("gen_rk: a stage value occurs twice in the error expression")
+                    err_split[st] = (sign * a, sign * b)
+                events.append(("err", {k: v for k, v in e.t.items() if v != 0}))
+            else:
+                events.append(("set", {k: v for k, v in e.t.items() if v != 0}))
+    return events, err_split
 
 
 def lin_to_row(t, n):
@@ -299,8 +900,8 @@ def lin_to_row(t, n):
     return [t.get(f"K{i}", Fraction(0)) for i in range(n)]
 
 
-def shape_rk(env, events):
-    """match the event sequence of the current rk_kinetics; returns the tableau"""
+def shape_rk(events):
+    """match the event sequence of rk_kinetics; returns the tableau"""
     kinds = [e[0] for e in events]
     sets = [e for e in events if e[0] == "set"]
     errs = [e for e in events if e[0] == "err"]
@@ -317,7 +918,6 @@ def shape_rk(env, events):
     if len(nodes) != 8 or nodes[0] != 0 or nodes[1] != 0 or nodes[2] != 1:
         raise Shape(f"gen_rk: unexpected sequence of rate_sim_time assignments {nodes}")
     c = [Fraction(0)] + nodes[3:]
-    # Set_moles sequence (source order)
     if len(sets) != 11:
         raise Shape(f"gen_rk: expected 11 Set_moles(<combination>) statements, found {len(sets)}")
     s = [x[1] for x in sets]
@@ -328,142 +928,259 @@ def shape_rk(env, events):
     if a21_bad != {"K0": a21} or a21_rk1 != {"K0": a21}:
         raise Shape("gen_rk: the three definitions of the k2 reaction (normal, after a bad step, after rk=1) differ")
     A = [[], [a21], lin_to_row(st3, 2), lin_to_row(st4, 3), lin_to_row(st5, 4), lin_to_row(st6, 5)]
-    b = lin_to_row(fin, 6)
-    d = lin_to_row(errs[0][1], 6)
-    return dict(A=A, c=c, b=b, d=d, e1=lin_to_row(e1, 1), e2=lin_to_row(e2, 2), e3=lin_to_row(e3, 3),
-                lines={"stage3": sets[4][2], "final": sets[10][2], "error": errs[0][2]})
+    return dict(A=A, c=c, b=lin_to_row(fin, 6), d=lin_to_row(errs[0][1], 6), e1=lin_to_row(e1, 1), e2=lin_to_row(e2, 2),
+                e3=lin_to_row(e3, 3))
 
 
-def norm(s):
-    return re.sub(r"\s+", "", s)
+X = r"([^{};]+?)"            # an expression inside a canonical statement
+TRACKED = ["h", "h_old", "h_sum", "step_ok", "step_bad", "l_bad", "moles_reduction", "moles_max", "safety", "equal_rate", "error_max"]
 
 
-def extract_control(body):
-    nb = norm(CAST.sub("", body))
+def is_one(text, what):
+    if const_of(text, what) != 1:
+        raise Shape(f"gen_rk: {what}: {text!r} is not 1")
+
+
+def extract_control(tree):
     out = {}
-
-    def one(name, pattern, conv=num):
-        ms = re.findall(pattern, nb)
-        if len(set(ms)) != 1:
-            raise Shape(f"gen_rk: control constant {name}: pattern {pattern!r} matched {ms}")
-        out[name] = conv(ms[0])
-    NUM = r"(-?\d+\.?\d*(?:[eE][-+]?\d+)?)"
-    one("safety", r"safety=" + NUM + ";")
-    one("molesMax", r"moles_max=" + NUM + ";")
-    one("shrinkExp", r"h=h\*safety\*pow\(error_max," + NUM + r"\);l_bad=TRUE", lambda x: -num(x[1:]) if x.startswith("-") else num(x))
-    one("growExp", r"error_max>[\d.eE+-]+\)\{h=h\*safety\*pow\(error_max," + NUM + r"\);\}", lambda x: -num(x[1:]) if x.startswith("-") else num(x))
-    one("growThreshold", r"if\(error_max>" + NUM + r"\)\{h=h\*safety\*pow")
-    one("growFactor", r"else\{h\*=" + NUM + r";\}")
-    one("mbReduction", r"==MASS_BALANCE\)\{run_reactions_iterations\+=iterations;moles_reduction=" + NUM + ";gotoMOLES_TOO_LARGE;")
-    one("tinyM", r"Get_m\(\)<" + NUM + r"\)kinetics_comp_ptr->Set_m\(0\.?\)")
-    required = [
-        "h_sum=0.;", "h=h_old=kin_time;", "while(h_sum<kin_time)", "h_sum+=h;", "step_ok++;", "step_bad++;",
-        "if(error_max>1){h_old=h;if(step_ok==0)h=h*safety/error_max;else",
-        "if(h>(kin_time-h_sum))h=(kin_time-h_sum);", "if(h_sum<kin_time){if(error_max>",
-        "h_old=h;h=safety*h/(1.0+moles_reduction);moles_reduction=1.0;equal_rate=FALSE;l_bad=TRUE;",
-        "if(kinetics_ptr->Get_step_divide()>1.0){h=h_old=kin_time/kinetics_ptr->Get_step_divide();equal_rate=FALSE;}"
-        "elseif(kinetics_ptr->Get_step_divide()<1.0)moles_max=kinetics_ptr->Get_step_divide();",
-        "l_error/=kinetics_comp_ptr->Get_tol();if(l_error>error_max)error_max=l_error;",
-        "if(step_bad>kinetics_ptr->Get_bad_step_max())",
-        "kinetics_comp_ptr->Set_m(m_temp[j]-kinetics_comp_ptr->Get_moles());",
-        "if(moles_reduction*moles_max<fabs(kinetics_comp_ptr->Get_moles())){moles_reduction=fabs(kinetics_comp_ptr->Get_moles())/moles_max;}",
-        "if(kinetics_ptr->Get_rk()<1)kinetics_ptr->Set_rk(1);elseif(kinetics_ptr->Get_rk()>3)kinetics_ptr->Set_rk(6);",
-        "if(kinetics_ptr->Get_rk()==6)equal_rate=FALSE;elseequal_rate=TRUE;",
-    ]
-    missing = [r for r in required if r not in nb]
-    if missing:
-        raise Shape(f"gen_rk: loop statements of rk_kinetics not found: {missing[:3]}")
+    top = stmts(tree)
+    wl = [k for k, n in enumerate(top) if n[0] == "loop" and n[1] == "while" and n[2] == "h_sum<kin_time"]
+    if len(wl) != 1:
+        raise Shape("gen_rk: `while (h_sum < kin_time)` is not a top-level statement of rk_kinetics")
+    iw = wl[0]
+    # ---- state on entry of the loop -----------------------------------------------------------------------------
+    sd = [k for k, n in enumerate(top[:iw]) if n[0] == "if" and re.fullmatch(r"kinetics_ptr->Get_step_divide\(\)>" + X, n[1])]
+    if len(sd) != 1:
+        raise Shape("gen_rk: the -step_divide test before the loop is not recognised")
+    isd = sd[0]
+    nsd = top[isd]
+    is_one(re.fullmatch(r"kinetics_ptr->Get_step_divide\(\)>" + X, nsd[1]).group(1), "-step_divide > 1")
+    asg = [a for n in stmts(nsd[2]) if n[0] == "simple" for a in assignments(n[1])]
+    want = {("h", "kin_time/kinetics_ptr->Get_step_divide()"), ("h_old", "kin_time/kinetics_ptr->Get_step_divide()"), ("equal_rate", "FALSE")}
+    if set(asg) != want or any(n[0] != "simple" for n in stmts(nsd[2])):
+        raise Shape(f"gen_rk: -step_divide > 1 branch is {ser(nsd[2])[:120]}")
+    els = nsd[3]
+    if els is None or els[0] != "if" or els[3] is not None or ser(els[2]) != "moles_max=kinetics_ptr->Get_step_divide();":
+        raise Shape("gen_rk: -step_divide < 1 branch is not recognised")
+    is_one(re.fullmatch(r"kinetics_ptr->Get_step_divide\(\)<" + X, els[1]).group(1), "-step_divide < 1")
+    for v in ("h", "h_old"):
+        if last_write(top, isd, v, "initial step")[0] != "kin_time":
+            raise Shape(f"gen_rk: `{v}` is not kin_time before the -step_divide test")
+    out["molesMax"] = const_of(last_write(top, isd, "moles_max", "initial moles_max")[0], "moles_max")
+    out["safety"] = const_of(last_write(top, iw, "safety", "safety")[0], "safety")
+    if sum(1 for n in walk(tree) if n[0] == "simple" and any(l == "safety" for l, _ in assignments(n[1]))) != 1:
+        raise Shape("gen_rk: `safety` is assigned more than once")
+    for v, val in (("h_sum", 0), ("moles_reduction", 1), ("step_ok", 0), ("step_bad", 0)):
+        if const_of(last_write(top, iw, v, f"initial {v}")[0], v) != val:
+            raise Shape(f"gen_rk: `{v}` is not {val} on entry of the loop")
+    if last_write(top, iw, "l_bad", "initial l_bad")[0] != "FALSE":
+        raise Shape("gen_rk: `l_bad` is not FALSE on entry of the loop")
+    # rk normalisation and the initial equal_rate
+    rkn = [k for k, n in enumerate(top[:isd]) if ser(n) == "if(kinetics_ptr->Get_rk()<1){kinetics_ptr->Set_rk(1);}else{if(kinetics_ptr->Get_rk()>3){kinetics_ptr->Set_rk(6);}}"]
+    eqi = [k for k, n in enumerate(top[:isd]) if ser(n) == "if(kinetics_ptr->Get_rk()==6){equal_rate=FALSE;}else{equal_rate=TRUE;}"]
+    if len(rkn) != 1 or len(eqi) != 1 or not rkn[0] < eqi[0]:
+        raise Shape("gen_rk: normalisation of -runge_kutta to 1/2/3/6 and the initial equal_rate are not recognised")
+    if any(node_writes(n, "equal_rate") for n in top[eqi[0] + 1:isd]):
+        raise Shape("gen_rk: equal_rate is changed between its initialisation and the -step_divide test")
+    # ---- loop body ------------------------------------------------------------------------------------------------
+    W = stmts(top[iw][3])
+    lab = [k for k, n in enumerate(W) if n == ("label", "MOLES_TOO_LARGE")]
+    bs = [k for k, n in enumerate(W) if n[0] == "if" and n[1] == "step_bad>kinetics_ptr->Get_bad_step_max()"]
+    if len(lab) != 1 or len(bs) != 1 or not bs[0] < lab[0] or "error_msg(" not in ser(W[bs[0]][2]):
+        raise Shape("gen_rk: the -bad_step_max test at the top of the loop / the label MOLES_TOO_LARGE are not recognised")
+    if any(node_writes(n, v) for n in W[:lab[0]] for v in TRACKED):
+        raise Shape("gen_rk: a step-control variable is written before the label MOLES_TOO_LARGE")
+    mtl = W[lab[0] + 1]
+    mc = re.fullmatch(r"moles_reduction>" + X, mtl[1]) if mtl[0] == "if" else None
+    if not mc or mtl[3] is not None:
+        raise Shape("gen_rk: `if (moles_reduction > 1.0)` does not follow the label MOLES_TOO_LARGE")
+    is_one(mc.group(1), "moles_reduction > 1")
+    g = require_block(mtl[2], {"h_old=h": r"h_old=h;", "h=": r"h=safety\*h/\(" + X + r"\+moles_reduction\);",
+                               "moles_reduction=1": r"moles_reduction=" + X + ";", "equal_rate": r"equal_rate=FALSE;", "l_bad": r"l_bad=TRUE;"},
+                      [("h_old=h", "h="), ("h=", "moles_reduction=1")], TRACKED, "MOLES_TOO_LARGE reduction")
+    is_one(g["h="].group(1), "1 + moles_reduction")
+    is_one(g["moles_reduction=1"].group(1), "moles_reduction reset")
+    # error norm
+    e0 = [k for k, n in enumerate(W) if n[0] == "simple" and re.fullmatch(r"error_max=" + X, n[1])]
+    if len(e0) != 1 or const_of(re.fullmatch(r"error_max=" + X, W[e0[0]][1]).group(1), "error_max") != 0:
+        raise Shape("gen_rk: `error_max = 0` before the error loop is not recognised")
+    el = [k for k in range(e0[0] + 1, len(W)) if W[k][0] == "loop" and "l_error=fabs(" in ser(W[k])]
+    gate = [k for k, n in enumerate(W) if n[0] == "if" and re.fullmatch(r"error_max>" + X, n[1]) and "step_bad++" in ser(n[2])]
+    if len(el) != 1 or len(gate) != 1 or not el[0] < gate[0]:
+        raise Shape("gen_rk: error loop / error gate are not recognised")
+    if any(node_writes(n, "error_max") for n in W[e0[0] + 1:el[0]] + W[el[0] + 1:gate[0]]):
+        raise Shape("gen_rk: error_max is written between its reset, the error loop and the gate")
+    require_block(W[el[0]][3], {"l_error=": r"l_error=fabs\(.*\);", "/tol": r"l_error/=kinetics_comp_ptr->Get_tol\(\);",
+                                "max": r"if\(l_error>error_max\)\{error_max=l_error;\}"},
+                  [("l_error=", "/tol"), ("/tol", "max")], ["l_error", "error_max"], "error norm")
+    ng = W[gate[0]]
+    is_one(re.fullmatch(r"error_max>" + X, ng[1]).group(1), "error_max > 1")
+    g = require_block(ng[2], {"h_old=h": r"h_old=h;", "shrink": r"if\(step_ok==0\)\{h=h\*safety/error_max;\}else\{h=h\*safety\*pow\(error_max," + X + r"\);\}",
+                              "l_bad": r"l_bad=TRUE;", "step_bad": r"step_bad\+\+;"}, [("h_old=h", "shrink")], TRACKED, "rejected step")
+    out["shrinkExp"] = const_of(g["shrink"].group(1), "shrink exponent")
+    if ng[3] is None:
+        raise Shape("gen_rk: the error gate has no accept branch")
+    g = require_block(ng[3], {"h_sum+=h": r"h_sum\+=h;", "step_ok": r"step_ok\+\+;",
+                              "next": r"if\(h_sum<kin_time\)\{if\(error_max>" + X + r"\)\{h=h\*safety\*pow\(error_max," + X + r"\);\}else\{h\*=" + X +
+                                      r";\}if\(h>\(?kin_time-h_sum\)?\)\{h=\(?kin_time-h_sum\)?;\}\}"},
+                      [("h_sum+=h", "next")], ["h", "h_old", "h_sum", "step_ok", "step_bad", "l_bad", "moles_max", "safety", "error_max"], "accepted step")
+    out["growThreshold"] = const_of(g["next"].group(1), "growth threshold")
+    out["growExp"] = const_of(g["next"].group(2), "growth exponent")
+    out["growFactor"] = const_of(g["next"].group(3), "growth factor")
+    # nothing after the gate in the loop body changes the controller
+    if any(node_writes(n, v) for n in W[gate[0] + 1:] for v in TRACKED):
+        raise Shape("gen_rk: a step-control variable is written after the error gate")
+    # ---- facts that hold wherever they occur ---------------------------------------------------------------------------
+    mb = set()
+    for n in walk(tree):
+        if n[0] == "if" and "==MASS_BALANCE" in n[1]:
+            a = dict(x for s in stmts(n[2]) if s[0] == "simple" for x in assignments(s[1]))
+            if "moles_reduction" not in a or "goto MOLES_TOO_LARGE;" not in ser(n[2]):
+                raise Shape("gen_rk: a MASS_BALANCE branch does not set moles_reduction and go to MOLES_TOO_LARGE")
+            mb.add(const_of(a["moles_reduction"], "MASS_BALANCE reduction"))
+    if len(mb) != 1:
+        raise Shape(f"gen_rk: MASS_BALANCE reductions {sorted(mb)}")
+    out["mbReduction"] = mb.pop()
+    tiny = set()
+    for n in walk(tree):
+        m = re.fullmatch(r"kinetics_comp_ptr->Get_m\(\)<" + X, n[1]) if n[0] == "if" else None
+        if m:
+            if not re.fullmatch(r"kinetics_comp_ptr->Set_m\(0\.?0*\);", ser(n[2])) or n[3] is not None:
+                raise Shape("gen_rk: floor of the amounts is not `Set_m(0)`")
+            tiny.add(const_of(m.group(1), "floor of the amounts"))
+    if len(tiny) != 1:
+        raise Shape(f"gen_rk: floors of the amounts {sorted(tiny)}")
+    out["tinyM"] = tiny.pop()
+    text = ser(tree)
+    if text.count("kinetics_comp_ptr->Set_m(m_temp[j]-kinetics_comp_ptr->Get_moles());") < 9:
+        raise Shape("gen_rk: stage amounts `m_temp[j] - moles` not found for every stage")
+    upd = "if(moles_reduction*moles_max<fabs(kinetics_comp_ptr->Get_moles())){moles_reduction=fabs(kinetics_comp_ptr->Get_moles())/moles_max;}"
+    if text.count(upd) != 5:
+        raise Shape(f"gen_rk: moles_reduction update found {text.count(upd)} times, expected after k1..k5")
     return out
 
 
-def extract_clamp(src):
+def extract_clamp(src, consts):
     """calc_final_kinetic_reaction: moles > m_temp[i] -> moles = m_temp[i], m = 0"""
-    body, _ = function_body(src, "calc_final_kinetic_reaction")
-    nb = norm(body)
-    need = "if(kinetics_comp_ptr->Get_moles()>m_temp[i]){kinetics_comp_ptr->Set_moles(m_temp[i]);kinetics_comp_ptr->Set_m(0);}"
-    if need not in nb:
-        raise Shape("gen_rk: clamp of the reaction to the available moles not found in calc_final_kinetic_reaction")
+    params, body = function_text(src, "calc_final_kinetic_reaction")
+    tree = drop_null_guards(parse_body(subst_constants(body, consts)))
+    for n in walk(tree):
+        m = re.fullmatch(r"(\w+)->Get_moles\(\)>m_temp\[(\w+)\]", n[1]) if n[0] == "if" else None
+        if m and n[3] is None:
+            x, i = m.groups()
+            if sorted(ser(s) for s in stmts(n[2])) == sorted([f"{x}->Set_moles(m_temp[{i}]);", f"{x}->Set_m(0);"]):
+                return
+    raise Shape("gen_rk: clamp of the reaction to the available moles not found in calc_final_kinetic_reaction")
 
 
+# ===============================================================================================================
+# run_reactions: CVODE restart loop
+# ===============================================================================================================
 VARS = ["tout", "sum_t", "cvode_last_good_time", "tout1", "t"]
 
 
-def extract_restart(src):
-    body, line0 = function_body(src, "run_reactions")
-    m = re.search(r"RESTART\s*:\s*while\s*\(\s*flag\s*!=\s*SUCCESS\s*\)\s*\{", body)
-    if not m:
-        raise Shape("gen_rk: CVODE restart loop `RESTART: while (flag != SUCCESS)` not found")
-    depth, j = 1, m.end()
-    while depth:
-        depth += body[j] == "{"
-        depth -= body[j] == "}"
-        j += 1
-    loop = body[m.end():j - 1]
-    pre = body[:m.start()]
-    nb_pre = norm(pre)
-    if not nb_pre.rstrip().endswith("m_iter=0;sum_t=0;"):
-        raise Shape("gen_rk: `m_iter = 0; sum_t = 0;` does not directly precede the restart loop")
-    first = re.findall(r"CVode\s*\(\s*kinetics_cvode_mem\s*,\s*(\w+)\s*,\s*kinetics_y\s*,\s*&t\s*,\s*NORMAL\s*\)", pre)
-    inner = re.findall(r"CVode\s*\(\s*kinetics_cvode_mem\s*,\s*(\w+)\s*,\s*kinetics_y\s*,\s*&t\s*,\s*NORMAL\s*\)", loop)
-    if first != ["tout"] or len(inner) != 1:
-        raise Shape(f"gen_rk: CVode calls: before loop {first}, in loop {inner}")
-    if not re.search(r"\btout\s*=\s*kin_time\s*;", pre):
-        raise Shape("gen_rk: `tout = kin_time;` not found")
-    if "N_VScale(1.0,cvode_last_good_y,kinetics_y);" not in norm(loop):
-        raise Shape("gen_rk: restart does not continue from cvode_last_good_y")
-    # straight-line assignments before the CVode call of the loop (nested blocks: only the error exit, skipped)
-    call_pos = re.search(r"CVode\s*\(", loop).start()
-    prog = []
-    depth = 0
-    stmt_start = 0
-    flat = loop[:call_pos]
-    for mm in re.finditer(r"\b(" + "|".join(VARS) + r")\s*(\+=|-=|=)(?!=)\s*([^;]*);", flat):
-        # ignore statements nested in an inner block (error exit): count braces before it
-        depth = flat[:mm.start()].count("{") - flat[:mm.start()].count("}")
-        if depth != 0:
-            continue
-        if re.search(r"flag\s*$", flat[:mm.start()].rstrip()[-6:]):
-            continue
-        lhs, op, rhs = mm.group(1), mm.group(2), mm.group(3)
-        e = parse_expr(rhs, {}, symbols=tuple(VARS))
-        if op == "+=":
-            e = e + Lin(0, {lhs: Fraction(1)})
-        elif op == "-=":
-            e = Lin(0, {lhs: Fraction(1)}) - e
-        prog.append((lhs, [e.t.get(v, Fraction(0)) for v in VARS], e.c, line0 + body[:m.end()].count("\n") + flat[:mm.start()].count("\n")))
+def extract_restart(src, consts):
+    params, body = function_text(src, "run_reactions")
+    body = roles_run_reactions(params, inline_helpers(subst_constants(body, consts), src))
+    tree = drop_null_guards(parse_body(body))
+    is_loop = lambda n: n[0] == "loop" and n[1] == "while" and n[2] == "flag!=SUCCESS"
+    found = find_parent(tree, is_loop)
+    if not found:
+        raise Shape("gen_rk: CVODE restart loop not found")
+    sl, il = found
+    if il == 0 or sl[il - 1] != ("label", "RESTART"):
+        raise Shape("gen_rk: the restart loop is not the statement labelled RESTART")
+    # state on entry: counters are zero, tout is the kinetic time step at the first call
+    for v in ("m_iter", "sum_t"):
+        if const_of(last_write(sl, il, v, f"{v} on entry of the restart loop")[0], v) != 0:
+            raise Shape(f"gen_rk: `{v}` is not 0 on entry of the restart loop")
+    first = [k for k, n in enumerate(sl[:il]) if n[0] == "simple" and n[1] == "flag=CVode(kinetics_cvode_mem,tout,kinetics_y,&t,NORMAL)"]
+    if len(first) != 1:
+        raise Shape("gen_rk: the first CVode call is not a straight-line statement before the restart loop")
+    if last_write(sl, first[0], "tout", "tout at the first CVode call")[0] != "kin_time":
+        raise Shape("gen_rk: `tout` is not kin_time at the first CVode call")
+    if any(node_writes(n, "tout") for n in sl[first[0] + 1:il + 1]):
+        raise Shape("gen_rk: `tout` is changed after the first CVode call")
+    # loop body up to the re-started call
+    B = stmts(sl[il][3])
+    call = [k for k, n in enumerate(B) if n[0] == "simple" and re.fullmatch(r"flag=CVode\(kinetics_cvode_mem,(\w+),kinetics_y,&t,NORMAL\)", n[1])]
+    if len(call) != 1:
+        raise Shape("gen_rk: the re-started CVode call is not a straight-line statement of the restart loop")
+    arg = re.fullmatch(r"flag=CVode\(kinetics_cvode_mem,(\w+),kinetics_y,&t,NORMAL\)", B[call[0]][1]).group(1)
+    prog, handoff, miter = [], 0, None
+    for n in B[:call[0]]:
+        if n[0] == "simple":
+            if re.fullmatch(r"N_VScale\(" + X + r",cvode_last_good_y,kinetics_y\)", n[1]):
+                is_one(re.fullmatch(r"N_VScale\(" + X + r",cvode_last_good_y,kinetics_y\)", n[1]).group(1), "hand-off scale")
+                handoff += 1
+                continue
+            for lhs, rhs in assignments(n[1]):
+                if lhs in VARS:
+                    e = parse_expr(rhs, {}, symbols=tuple(VARS))
+                    prog.append((lhs, [e.t.get(v, Fraction(0)) for v in VARS], e.c))
+        else:
+            mm = re.fullmatch(r"\+\+m_iter(>=|>)kinetics_ptr->Get_bad_step_max\(\)", n[1]) if n[0] == "if" else None
+            if mm and "error_msg(" in ser(n[2]):
+                miter = mm.group(1)
+                continue
+            for v in VARS + ["kinetics_y"]:
+                if node_writes(n, v) and v != "t" or (v == "t" and writes_var(ser(n), "t")):
+                    raise Shape(f"gen_rk: `{v}` is written inside a nested statement of the restart loop: {ser(n)[:80]}")
+    if handoff != 1:
+        raise Shape("gen_rk: the re-started call does not continue from cvode_last_good_y (exactly once)")
+    if miter is None:
+        raise Shape("gen_rk: `if (++m_iter >= bad_step_max)` not recognised in the CVODE restart loop")
     if not prog:
         raise Shape("gen_rk: no time bookkeeping statements found in the restart loop")
-    return dict(prog=prog, call_arg=inner[0])
+    return dict(prog=prog, call_arg=arg, miter=miter)
 
 
+# ===============================================================================================================
+# cvode.cpp: CVStep
+# ===============================================================================================================
 def extract_cvstep(repo):
-    """cvode.cpp CVStep: which vector is tested and stored as cvode_last_good_y at the top of every attempt"""
-    src = strip_comments((repo / "src/phreeqcpp/cvode.cpp").read_text())
-    src = re.sub(r"#ifdef DEBUG_CVODE.*?#endif", "", src, flags=re.S)
-    m = re.search(r"\nCVStep\s*\(CVodeMem cv_mem\)\s*\{", src)
+    """which vector is tested and stored as cvode_last_good_y at the top of every attempt, before CVPredict"""
+    raw = (repo / "src/phreeqcpp/cvode.cpp").read_text()
+    src = strip_comments(raw)
+    src = re.sub(r"#\s*ifdef DEBUG_CVODE.*?#\s*endif", "", src, flags=re.S)
+    src = strip_preprocessor(src)
+    m = re.search(r"(?m)^CVStep\s*\(\s*CVodeMem\s+cv_mem\s*\)\s*\{", src)
     if not m:
         raise Shape("gen_rk: CVStep not found in cvode.cpp")
-    body = src[m.end():m.end() + 6000]
-    nb = norm(body)
-    mm = re.search(r"loop\{boolpredict_fail=false;CVMEMcvode_test=TRUE;f\(N,tn,(zn\[0\]|y),ftemp,f_data\);CVMEMcvode_test=FALSE;"
-                   r"if\(CVMEMcvode_error==TRUE\)\{predict_fail=true;\}else\{CVMEMcvode_prev_good_time=CVMEMcvode_last_good_time;"
-                   r"N_VScale\(1\.0,CVMEMcvode_last_good_y,CVMEMcvode_prev_good_y\);CVMEMcvode_last_good_time=tn;"
-                   r"N_VScale\(1\.0,(zn\[0\]|y),CVMEMcvode_last_good_y\);\}", nb)
-    if not mm:
-        raise Shape("gen_rk: the last-good-state hook at the top of the CVStep attempt loop is not recognised")
-    if "CVPredict(cv_mem);" not in nb[mm.end():mm.end() + 200]:
-        raise Shape("gen_rk: CVPredict does not follow the last-good-state hook")
+    depth, j = 1, m.end()
+    while depth:
+        depth += src[j] == "{"
+        depth -= src[j] == "}"
+        j += 1
+    body = src[m.end():j - 1]
+    body = re.sub(r"\bloop\b", "for(;;)", body)
+    body = re.sub(r"\bCVMEM\b", "", body)
+    tree = drop_null_guards(parse_body(body))
+    loops = [n for n in stmts(tree) if n[0] == "loop" and n[1] == "for" and n[2] == ";;"]
+    if len(loops) != 1:
+        raise Shape("gen_rk: the attempt loop of CVStep is not recognised")
+    L = stmts(loops[0][3])
+    ip = [k for k, n in enumerate(L) if n == ("simple", "CVPredict(cv_mem)")]
+    if len(ip) != 1:
+        raise Shape("gen_rk: CVPredict is not a straight-line statement of the attempt loop")
+    pre = {"type": "block"}
+    g = require_block(("block", L[:ip[0]]),
+                      {"test on": r"cvode_test=TRUE;", "f": r"f\(N,tn," + X + r",ftemp,f_data\);", "test off": r"cvode_test=FALSE;",
+                       "hook": r"if\(cvode_error==TRUE\)\{predict_fail=true;\}else\{(.*)\}"},
+                      [("test on", "f"), ("f", "test off"), ("test off", "hook")],
+                      ["cvode_last_good_time", "cvode_last_good_y", "cvode_prev_good_time", "cvode_prev_good_y", "tn"], "CVStep hook")
+    hook_if = [n for n in L[:ip[0]] if n[0] == "if" and n[1] == "cvode_error==TRUE"][0]
+    h = require_block(hook_if[3], {"prev time": r"cvode_prev_good_time=cvode_last_good_time;",
+                                   "prev y": r"N_VScale\(" + X + r",cvode_last_good_y,cvode_prev_good_y\);",
+                                   "time": r"cvode_last_good_time=tn;", "y": r"N_VScale\(" + X + "," + X + r",cvode_last_good_y\);"},
+                      [("prev time", "time"), ("prev y", "y")],
+                      ["cvode_last_good_time", "cvode_last_good_y", "cvode_prev_good_time", "cvode_prev_good_y", "tn"], "CVStep hook (state is usable)")
+    is_one(h["y"].group(1), "hook scale")
     code = {"zn[0]": 0, "y": 1}
-    return {"test": code[mm.group(1)], "save": code[mm.group(2)]}
-
-
-def extract_miter(src):
-    body, _ = function_body(src, "run_reactions")
-    nb = norm(body)
-    m = re.search(r"if\(\+\+m_iter(>=|>)kinetics_ptr->Get_bad_step_max\(\)\)", nb)
-    if not m:
-        raise Shape("gen_rk: `if (++m_iter >= bad_step_max)` not recognised in the CVODE restart loop")
-    return m.group(1)
+    tv, sv = g["f"].group(1), h["y"].group(2)
+    if tv not in code or sv not in code:
+        raise Shape(f"gen_rk: CVStep hook tests {tv!r} and stores {sv!r}")
+    return {"test": code[tv], "save": code[sv]}
 
 
 # ---------------------------------------------------------------------------------------------------------------
@@ -481,8 +1198,7 @@ def qlist(xs):
 def render(tab, ctl, rst, repo_rel):
     L = []
     L.append("/-! GENERATED by tools/gen_rk.py from " + repo_rel + " — do not edit.")
-    L.append(f"Source lines: coefficient initialisers {tab['coef_line']}, k3 combination {tab['lines']['stage3']}, "
-             f"result weights {tab['lines']['final']}, error expression {tab['lines']['error']}. -/")
+    L.append("Facts read from the structure of rk_kinetics, calc_final_kinetic_reaction, run_reactions and (cvode.cpp) CVStep. -/")
     L.append("namespace PhreeqcVerif.Gen.RKTableau")
     L.append("")
     L.append("/-- stage combinations: row i = coefficients of k1..k_i in the reaction used to evaluate k_{i+1} -/")
@@ -508,8 +1224,8 @@ def render(tab, ctl, rst, repo_rel):
     L.append("variables: 0 tout, 1 sum_t, 2 cvode_last_good_time, 3 tout1, 4 t; an entry is (lhs, coefficients, constant) -/")
     L.append("def restartProg : List (Nat × List Rat × Rat) := [")
     rows = []
-    for lhs, coefs, const, ln in rst["prog"]:
-        rows.append(f"  ({VARS.index(lhs)}, {qlist(coefs)}, {q(const)})   -- line {ln}: {lhs} = ...")
+    for lhs, coefs, const in rst["prog"]:
+        rows.append(f"  ({VARS.index(lhs)}, {qlist(coefs)}, {q(const)})   -- {lhs} = ...")
     # commas between rows but comments at end of line: put comma before the comment
     for i, r in enumerate(rows):
         code, _, cm = r.partition("   -- ")
@@ -529,25 +1245,31 @@ def render(tab, ctl, rst, repo_rel):
 
 def extract(repo=None):
     repo = Path(repo or vlib.REPO)
-    src = strip_comments((repo / SRC).read_text())
-    body, line0 = function_body(src, "rk_kinetics")
-    env, events, info = extract_rk(body, line0)
-    tab = shape_rk(env, events)
-    tab["coef_line"] = info["coef_line"]
-    # operands of the error weights in stage order (a stage without a weight has (0, 0))
-    names = {0: "dc1", 1: "dc2", 2: "dc3", 3: "dc4", 4: "dc5", 5: "dc6"}
+    raw = (repo / SRC).read_text()
+    consts = file_constants(raw)
+    src = strip_preprocessor(strip_comments(raw))
+    params, body = function_text(src, "rk_kinetics")
+    body = roles_rk(params, inline_helpers(subst_constants(body, consts), src))
+    tree = drop_null_guards(parse_body(body))
+    env, split = local_constants(stmts(tree))
+    events, err_split = extract_events(tree, env, split)
+    tab = shape_rk(events)
+    # a coefficient that is assigned again after its initialiser would invalidate the reading
+    text = ser(tree)
+    for nm in env:
+        if len(re.findall(r"(?<![\w.>])" + re.escape(nm) + r"(?:=(?!=)|\+=|-=|\*=|/=|\+\+|--)", text)) != 1:
+            raise Shape(f"gen_rk: local constant {nm} is assigned after its initialiser")
     dmin, dsub = [], []
     for i in range(6):
-        a, b2 = info["split"].get(names[i], (Fraction(0), Fraction(0)))
+        a, b2 = (err_split or {}).get(i, (Fraction(0), Fraction(0)))
         if a - b2 != tab["d"][i]:
-            raise Shape(f"gen_rk: error weight of stage {i + 1} is not the initialiser {names[i]}")
+            raise Shape(f"gen_rk: error weight of stage {i + 1} is not what its initialiser says")
         dmin.append(a)
         dsub.append(b2)
     tab["dmin"], tab["dsub"] = dmin, dsub
-    ctl = extract_control(body)
-    extract_clamp(src)
-    rst = extract_restart(src)
-    rst["miter"] = extract_miter(src)
+    ctl = extract_control(tree)
+    extract_clamp(src, consts)
+    rst = extract_restart(src, consts)
     rst["hook"] = extract_cvstep(repo)
     return tab, ctl, rst
 
@@ -560,7 +1282,7 @@ def generate(ctx=None):
         out.write_text(text)
     return {"source": SRC, "stages": len(tab["A"]), "b": [str(x) for x in tab["b"]], "d": [str(x) for x in tab["d"]],
             "c": [str(x) for x in tab["c"]], "control": {k: str(v) for k, v in ctl.items()},
-            "restart_prog": [(l, [str(x) for x in cs], str(c)) for l, cs, c, _ in rst["prog"]],
+            "restart_prog": [(l, [str(x) for x in cs], str(c)) for l, cs, c in rst["prog"]],
             "restart_call_arg": rst["call_arg"], "restart_stops_at": "++m_iter " + rst["miter"] + " bad_step_max",
             "cvstep_hook": rst["hook"]}
 
